@@ -113,6 +113,7 @@ def run(chk):
     cases, pf, desc = [], [], []
     # ---------------- stream A: structural (scripted drivers / estimator / test), every method
     nA = 250 if chk.tier == "quick" else 15000
+    seam_errors = []
     for t in range(nA):
         L = int(rng.integers(1, 5))
         T = L + 3 if t % 5 == 0 else int(rng.integers(L + 3, 16))
@@ -122,6 +123,9 @@ def run(chk):
             series = np.arange(T * n, dtype=float).reshape(T, n)
         else:
             series = rng.integers(-40, 41, (T, n)).astype(float) / 16
+        if n >= 2 and rng.random() < 0.2:            # a dead channel: one variable is constant over the whole record
+            series[:, int(rng.integers(0, n))] = float(rng.integers(-3, 4))
+            chk.count("structural.dead_channel")
         use_df = rng.random() < 0.35
         names = [f"v{7 * j + 3}" for j in range(n)] if use_df else [f"X{j}" for j in range(n)]
         data = pd.DataFrame(series, columns=names) if use_df else series
@@ -131,14 +135,20 @@ def run(chk):
             k = int(rng.integers(0, min(4, n * L) + 1))
             sel[i] = [int(x) for x in rng.choice(n * L, k, replace=False)]
             return list(sel[i])
-        with Spy(disc, select=select, estimator=lambda k, r: 1.0 + k / 1024, test=lambda k, r: {
-                "Threshold": 0.0, "Value": r["observed"], "Pass": True, "P_value": (k % 13) / 13}) as spy, lib.quiet():
-            G = disc.discover_network(data, method=method, information="gaussian", max_lag=L, n_shuffles=13)
+        try:
+            with Spy(disc, select=select, estimator=lambda k, r: 1.0 + k / 1024, test=lambda k, r: {
+                    "Threshold": 0.0, "Value": r["observed"], "Pass": True, "P_value": (k % 13) / 13}) as spy, lib.quiet():
+                G = disc.discover_network(data, method=method, information="gaussian", max_lag=L, n_shuffles=13)
+        except Exception as e:       # the scripted selection no longer fits what discover_network builds: the seam is broken
+            seam_errors.append(f"{type(e).__name__}: {e} (T={T}, n={n}, max_lag={L}, method={method})"[:200])
+            continue
         for i in range(n):
             judge_target(series, L, names, G, spy, i, cases, pf, desc, chk,
                          {"stream": "structural", "method": method, "T": T, "n": n, "max_lag": L, "dataframe": use_df})
         chk.count("structural." + method)
         chk.count("structural.boundary_T" if T == L + 3 else "structural.T_other")
+    chk.oblige("correspondence", "discover_network accepts scripted selections over the n*max_lag candidate columns (seam of stream A)",
+               not seam_errors, f"{len(seam_errors)} runs raised" + (f", e.g. {seam_errors[0]}" if seam_errors else ""))
     # ---------------- stream B: semantic (real selection, real estimators), cmi and p-value recomputed independently
     nB = 28 if chk.tier == "quick" else 500
     plan = ["gaussian"] * 4 + ["knn"] * 2 + ["poisson"] * 2 + ["kde", "geometric_knn"]
@@ -156,6 +166,14 @@ def run(chk):
             for tt in range(1, T):
                 series[tt, 1] = 0.9 * series[tt - 1, 0] + 0.3 * series[tt, 1]
             series = np.rint(series * SC) / SC
+        if t % 3 == 1 and info in ("knn", "gaussian", "poisson"):      # dead channel in front of the coupled pair
+            n = 3
+            base = series[:, :2]
+            series = np.column_stack([np.full(T, 2.0), base[:, 0], base[:, 1]])
+            if info != "poisson":
+                series[1:, 2] = np.rint((0.9 * series[:-1, 1] + 0.3 * series[1:, 2]) * SC) / SC
+            method = ["lasso", "information_lasso", "alternative", "standard"][(t // 3) % 4] if info != "gaussian" else ["lasso", "information_lasso"][(t // 3) % 2]
+            chk.count("semantic.dead_channel")
         nsh, k = 8, 3
         names = [f"X{j}" for j in range(n)]
         with Spy(disc) as spy, lib.quiet():
